@@ -1,5 +1,562 @@
 package main
 
-import "verifharness/util"
+// C05: behaviours of spec/system/Values.tla replayed on the real runtime.
+//
+// A behaviour is {"id":n,"steps":[label...]}; every label of a step inside a transaction carries
+// "obs": the deep value the specification predicts for every local variable, for what the two
+// references show, and for every storage path (in-transaction view).  The rendered transaction
+// logs the same after every step (a contract function walks the values through references and
+// renders them to a canonical string).  After every transaction a script re-reads the stored
+// values from the ledger (copy<T>) and compares them with the predicted committed values.
+// Refinements of the payload: "int" (Int), "str" (300-byte String).
 
-func mainC05(in, out string) { util.Die("c05 not built yet") }
+import (
+	"encoding/json"
+	"fmt"
+	"sort"
+	"strconv"
+	"strings"
+	"sync/atomic"
+
+	"github.com/onflow/cadence"
+	"github.com/onflow/cadence/common"
+
+	"verifharness/host"
+	"verifharness/util"
+)
+
+type vSel struct {
+	F   string `json:"f"`
+	J   int    `json:"j"`
+	Key string `json:"key"`
+}
+
+type vInner struct {
+	X  int   `json:"x"`
+	Xs []int `json:"xs"`
+}
+
+type vEntry struct {
+	Key string `json:"key"`
+	V   vInner `json:"v"`
+}
+
+type vOuter struct {
+	P int      `json:"p"`
+	I vInner   `json:"i"`
+	A []vInner `json:"a"`
+	D []vEntry `json:"d"`
+}
+
+type vObs struct {
+	O  map[string][]vOuter `json:"o"`
+	I  map[string][]vInner `json:"i"`
+	St map[string][]vOuter `json:"st"`
+	R  []vOuter            `json:"r"`
+	Q  []vInner            `json:"q"`
+}
+
+type vStep struct {
+	Op    string `json:"op"`
+	V     string `json:"v"`
+	Src   string `json:"src"`
+	Root  string `json:"root"`
+	Path  string `json:"path"`
+	Key   string `json:"key"`
+	K     int    `json:"k"`
+	Sel   *vSel  `json:"sel"`
+	DropR bool   `json:"dropr"`
+	DropQ bool   `json:"dropq"`
+	Obs   *vObs  `json:"obs"`
+}
+
+type vBeh struct {
+	ID    int     `json:"id"`
+	Steps []vStep `json:"steps"`
+}
+
+func c05Contract(ref string) string {
+	P, encdec, init := "Int", `
+  access(all) view fun enc(_ k: Int): Int { return k }
+  access(all) view fun dec(_ e: Int): Int { return e }`, ""
+	if ref == "str" {
+		P = "String"
+		encdec = `
+  access(all) let pad: String
+  access(all) let tab: {String: Int}
+  access(all) view fun enc(_ k: Int): String { return (10000 + k).toString().concat(self.pad) }
+  access(all) view fun dec(_ e: String): Int { return self.tab[e] ?? -999 }`
+		init = "self.pad = \"" + strings.Repeat("x", 295) + "\"; self.tab = {}; var k = 0; while k <= 120 { self.tab[self.enc(k)] = k; k = k + 1 }"
+	}
+	s := `access(all) contract T {` + encdec + `
+  access(all) struct Inner {
+    access(all) var x: P
+    access(all) var xs: [P]
+    init(_ k: Int) { self.x = T.enc(k); self.xs = [T.enc(k)] }
+    access(all) fun setX(_ k: Int) { self.x = T.enc(k) }
+    access(all) fun push(_ k: Int) { self.xs.append(T.enc(k)) }
+    access(all) fun clone(): Inner { return self }
+  }
+  access(all) struct Outer {
+    access(all) var p: P
+    access(all) var i: Inner
+    access(all) var a: [Inner]
+    access(all) var d: {String: Inner}
+    init(_ k: Int) { self.p = T.enc(k); self.i = Inner(k); self.a = [Inner(k)]; self.d = {"a": Inner(k)} }
+    access(all) fun setP(_ k: Int) { self.p = T.enc(k) }
+    access(all) fun setI(_ v: Inner) { self.i = v }
+    access(all) fun setA(_ j: Int, _ v: Inner) { self.a[j] = v }
+    access(all) fun putD(_ key: String, _ v: Inner) { self.d[key] = v }
+    access(all) fun addA(_ v: Inner) { self.a.append(v) }
+    access(all) fun popA(): Inner { return self.a.removeLast() }
+    access(all) fun delD(_ key: String) { self.d.remove(key: key) }
+    access(all) fun clone(): Outer { return self }
+  }
+  access(all) fun id(_ o: Outer): Outer { return o }
+  // the callee mutates the copy it received
+  access(all) fun mutArg(_ o: Outer) {
+    o.setP(99); o.i.setX(98); o.i.push(97); o.putD("z", Inner(96)); o.addA(Inner(95))
+    if o.a.length > 0 { o.a[0].setX(94) }
+  }
+  access(all) fun showI(_ r: &Inner): String {
+    var s = "I(".concat(self.dec(r.x).toString()).concat(";")
+    for e in r.xs { s = s.concat(self.dec(e).toString()).concat(",") }
+    return s.concat(")")
+  }
+  access(all) fun showO(_ r: &Outer): String {
+    var s = "O(".concat(self.dec(r.p).toString()).concat(";").concat(self.showI(r.i)).concat(";[")
+    var j = 0
+    while j < r.a.length { s = s.concat(self.showI(r.a[j])).concat(","); j = j + 1 }
+    s = s.concat("];{")
+    for key in ["a", "b", "z"] {
+      if let e = r.d[key] { s = s.concat(key).concat(":").concat(self.showI(e)).concat(",") }
+    }
+    if r.d.length > 3 { s = s.concat("?") }
+    return s.concat("})")
+  }
+  access(all) fun obs(_ os: [&Outer], _ iss: [&Inner], _ r: &Outer?, _ q: &Inner?, _ st: [&Outer?]): String {
+    var s = ""
+    for o in os { s = s.concat(self.showO(o)).concat("|") }
+    for i in iss { s = s.concat(self.showI(i)).concat("|") }
+    if let x = r { s = s.concat(self.showO(x)).concat("|") } else { s = s.concat("-|") }
+    if let x = q { s = s.concat(self.showI(x)).concat("|") } else { s = s.concat("-|") }
+    for o in st { if let x = o { s = s.concat(self.showO(x)).concat("|") } else { s = s.concat("-|") } }
+    return s
+  }
+  init() { ` + init + ` }
+}`
+	s = strings.ReplaceAll(s, ": P\n", ": "+P+"\n")
+	s = strings.ReplaceAll(s, "[P]", "["+P+"]")
+	return s
+}
+
+func showInner(v vInner) string {
+	var sb strings.Builder
+	fmt.Fprintf(&sb, "I(%d;", v.X)
+	for _, x := range v.Xs {
+		fmt.Fprintf(&sb, "%d,", x)
+	}
+	sb.WriteString(")")
+	return sb.String()
+}
+
+func showOuter(v vOuter) string {
+	var sb strings.Builder
+	fmt.Fprintf(&sb, "O(%d;%s;[", v.P, showInner(v.I))
+	for _, e := range v.A {
+		sb.WriteString(showInner(e) + ",")
+	}
+	sb.WriteString("];{")
+	ds := append([]vEntry(nil), v.D...)
+	sort.Slice(ds, func(i, j int) bool { return ds[i].Key < ds[j].Key })
+	for _, e := range ds {
+		sb.WriteString(e.Key + ":" + showInner(e.V) + ",")
+	}
+	sb.WriteString("})")
+	return sb.String()
+}
+
+type c05names struct{ os, is, ps []string }
+
+func namesOf(o *vObs) c05names {
+	var n c05names
+	for k := range o.O {
+		n.os = append(n.os, k)
+	}
+	for k := range o.I {
+		n.is = append(n.is, k)
+	}
+	for k := range o.St {
+		n.ps = append(n.ps, k)
+	}
+	sort.Strings(n.os)
+	sort.Strings(n.is)
+	sort.Strings(n.ps)
+	return n
+}
+
+func expectObs(n c05names, o *vObs) string {
+	var sb strings.Builder
+	for _, v := range n.os {
+		if len(o.O[v]) == 0 {
+			sb.WriteString("-|")
+		} else {
+			sb.WriteString(showOuter(o.O[v][0]) + "|")
+		}
+	}
+	for _, v := range n.is {
+		if len(o.I[v]) == 0 {
+			sb.WriteString("-|")
+		} else {
+			sb.WriteString(showInner(o.I[v][0]) + "|")
+		}
+	}
+	if len(o.R) == 0 {
+		sb.WriteString("-|")
+	} else {
+		sb.WriteString(showOuter(o.R[0]) + "|")
+	}
+	if len(o.Q) == 0 {
+		sb.WriteString("-|")
+	} else {
+		sb.WriteString(showInner(o.Q[0]) + "|")
+	}
+	for _, p := range n.ps {
+		if len(o.St[p]) == 0 {
+			sb.WriteString("-|")
+		} else {
+			sb.WriteString(showOuter(o.St[p][0]) + "|")
+		}
+	}
+	return sb.String()
+}
+
+func obsStmt(n c05names) string {
+	var os, is, ps []string
+	for _, v := range n.os {
+		os = append(os, fmt.Sprintf("&%s as &T.Outer", v))
+	}
+	for _, v := range n.is {
+		is = append(is, fmt.Sprintf("&%s as &T.Inner", v))
+	}
+	for _, p := range n.ps {
+		ps = append(ps, fmt.Sprintf("acct.storage.borrow<&T.Outer>(from: /storage/%s)", p))
+	}
+	return fmt.Sprintf("log(T.obs([%s], [%s], r, q, [%s]))", strings.Join(os, ", "), strings.Join(is, ", "), strings.Join(ps, ", "))
+}
+
+func oRoot(name string) string {
+	if name == "r" {
+		return "r!"
+	}
+	return name
+}
+
+func selSuffix(s *vSel) string {
+	switch s.F {
+	case "i":
+		return ".i"
+	case "a":
+		return fmt.Sprintf(".a[%d]", s.J)
+	case "d":
+		return fmt.Sprintf(".d[%q]!", s.Key)
+	}
+	return ""
+}
+
+// innerPlace is an expression designating the Inner at a location, usable as the receiver of a method call.
+func innerPlace(root string, s *vSel) string {
+	if s == nil || s.F == "-" {
+		if root == "q" {
+			return "q!"
+		}
+		return root
+	}
+	return oRoot(root) + selSuffix(s)
+}
+
+// innerValue is an expression yielding (a copy of) the Inner at a location.
+func innerValue(root string, s *vSel) string {
+	if root == "q" || root == "r" {
+		return innerPlace(root, s) + ".clone()"
+	}
+	return innerPlace(root, s)
+}
+
+func outerValue(name string) string {
+	if name == "r" {
+		return "r!.clone()"
+	}
+	return name
+}
+
+func c05RenderOp(s vStep) string {
+	switch s.Op {
+	case "newO":
+		return fmt.Sprintf("%s = T.Outer(%d)", s.V, s.K)
+	case "newI":
+		return fmt.Sprintf("%s = T.Inner(%d)", s.V, s.K)
+	case "assignO":
+		return fmt.Sprintf("%s = %s", s.V, outerValue(s.Src))
+	case "idO":
+		return fmt.Sprintf("%s = T.id(%s)", s.V, outerValue(s.Src))
+	case "argMutO":
+		return fmt.Sprintf("T.mutArg(%s)", outerValue(s.Src))
+	case "readI":
+		return fmt.Sprintf("%s = %s", s.V, innerValue(s.Root, s.Sel))
+	case "writeI":
+		src := innerValue(s.Src, nil)
+		switch s.Sel.F {
+		case "i":
+			return fmt.Sprintf("%s.setI(%s)", oRoot(s.Root), src)
+		case "a":
+			return fmt.Sprintf("%s.setA(%d, %s)", oRoot(s.Root), s.Sel.J, src)
+		default:
+			return fmt.Sprintf("%s.putD(%q, %s)", oRoot(s.Root), s.Sel.Key, src)
+		}
+	case "appendA":
+		return fmt.Sprintf("%s.addA(%s)", oRoot(s.Root), innerValue(s.Src, nil))
+	case "popA":
+		return fmt.Sprintf("%s = %s.popA()", s.V, oRoot(s.Root))
+	case "delD":
+		return fmt.Sprintf("%s.delD(%q)", oRoot(s.Root), s.Key)
+	case "setP":
+		return fmt.Sprintf("%s.setP(%d)", oRoot(s.Root), s.K)
+	case "setX":
+		return fmt.Sprintf("%s.setX(%d)", innerPlace(s.Root, s.Sel), s.K)
+	case "push":
+		return fmt.Sprintf("%s.push(%d)", innerPlace(s.Root, s.Sel), s.K)
+	case "save":
+		return fmt.Sprintf("acct.storage.save(%s, to: /storage/%s)", s.V, s.Path)
+	case "load":
+		return fmt.Sprintf("%s = acct.storage.load<T.Outer>(from: /storage/%s)!", s.V, s.Path)
+	case "copySt":
+		return fmt.Sprintf("%s = acct.storage.copy<T.Outer>(from: /storage/%s)!", s.V, s.Path)
+	case "refO":
+		return fmt.Sprintf("r = &%s as &T.Outer", s.V)
+	case "borrow":
+		return fmt.Sprintf("r = acct.storage.borrow<&T.Outer>(from: /storage/%s)", s.Path)
+	case "refI":
+		if s.Root == "r" {
+			switch s.Sel.F {
+			case "i":
+				return "q = r!.i"
+			case "a":
+				return fmt.Sprintf("q = r!.a[%d]", s.Sel.J)
+			default:
+				return fmt.Sprintf("q = r!.d[%q]", s.Sel.Key)
+			}
+		}
+		if s.Sel.F == "d" {
+			return fmt.Sprintf("q = &%s.d[%q] as &T.Inner?", s.Root, s.Sel.Key)
+		}
+		return fmt.Sprintf("q = &%s as &T.Inner", innerPlace(s.Root, s.Sel))
+	case "abort":
+		return "panic(\"abort\")"
+	}
+	panic("c05RenderOp: unknown op " + s.Op)
+}
+
+func c05RenderTx(n c05names, steps []vStep) string {
+	var sb strings.Builder
+	sb.WriteString("import T from 0x1\ntransaction {\n  prepare(acct: auth(Storage) &Account) {\n")
+	for _, v := range n.os {
+		fmt.Fprintf(&sb, "    var %s = T.Outer(0)\n", v)
+	}
+	for _, v := range n.is {
+		fmt.Fprintf(&sb, "    var %s = T.Inner(0)\n", v)
+	}
+	sb.WriteString("    var r: &T.Outer? = nil\n    var q: &T.Inner? = nil\n")
+	obs := obsStmt(n)
+	for _, s := range steps {
+		switch s.Op {
+		case "begin":
+			sb.WriteString("    " + obs + "\n")
+		case "commit":
+		case "abort":
+			sb.WriteString("    panic(\"abort\")\n")
+		default:
+			sb.WriteString("    " + c05RenderOp(s))
+			if s.DropR {
+				sb.WriteString("; r = nil")
+			}
+			if s.DropQ {
+				sb.WriteString("; q = nil")
+			}
+			sb.WriteString("\n    " + obs + "\n")
+		}
+	}
+	sb.WriteString("  }\n}\n")
+	return sb.String()
+}
+
+func c05Projection(n c05names) string {
+	var sb strings.Builder
+	sb.WriteString("import T from 0x1\naccess(all) fun main(): [String] {\n  let acct = getAuthAccount<auth(Storage) &Account>(0x2)\n  let out: [String] = []\n")
+	for _, p := range n.ps {
+		fmt.Fprintf(&sb, "  if let v = acct.storage.copy<T.Outer>(from: /storage/%s) { out.append(T.showO(&v as &T.Outer)) } else { out.append(\"-\") }\n", p)
+	}
+	sb.WriteString("  return out\n}\n")
+	return sb.String()
+}
+
+func c05Replay(b *vBeh, ref, engine string) *Fail {
+	useVM := engine == "vm"
+	mk := func(kind string, step int, s *vStep, msg, src string) *Fail {
+		f := &Fail{ID: b.ID, Engine: engine, Ref: ref, Kind: kind, Step: step, Msg: msg, Src: src, Beh: b,
+			Sig: map[string]any{"kind": kind, "engine": engine, "refinement": ref}}
+		if s != nil {
+			f.Op = s.Op
+			f.Sig["op"] = s.Op
+			if s.Root != "" {
+				f.Sig["root"] = s.Root
+			}
+			if s.Sel != nil {
+				f.Sig["sel"] = s.Sel.F
+			}
+		}
+		return f
+	}
+	harness := func(f *Fail) *Fail { f.Harness = true; return f }
+	w := host.NewWorld()
+	if err := w.Deploy(host.Addr(1), "T", c05Contract(ref)); err != nil {
+		return harness(mk("deploy", 0, nil, err.Error(), c05Contract(ref)))
+	}
+	signers := []common.Address{host.Addr(2)}
+	var names c05names
+	haveNames := false
+	var cur []vStep
+	var curIdx []int
+	for si := range b.Steps {
+		s := b.Steps[si]
+		if s.Op == "init" || s.Op == "end" {
+			continue
+		}
+		if s.Obs == nil {
+			return harness(mk("noobs", si, &s, "step carries no predicted observation", ""))
+		}
+		if !haveNames {
+			names = namesOf(s.Obs)
+			haveNames = true
+		}
+		if s.Op == "begin" {
+			cur, curIdx = nil, nil
+		}
+		cur = append(cur, s)
+		curIdx = append(curIdx, si)
+		if s.Op != "commit" && s.Op != "abort" {
+			continue
+		}
+		src := c05RenderTx(names, cur)
+		res := w.Tx(src, signers, useVM)
+		if host.IsInternal(res.Class) {
+			return mk("internal", si, &s, res.Class+": "+res.Err.Error(), src)
+		}
+		if isCheckerError(res.Err) {
+			return harness(mk("render", si, &s, res.Err.Error(), src))
+		}
+		// one observation per step (begin included), commit/abort excluded
+		nobs := len(cur) - 1
+		for i := 0; i < nobs && i < len(res.Logs); i++ {
+			want := expectObs(names, cur[i].Obs)
+			if res.Logs[i] != want {
+				st := cur[i]
+				return mk("observation", curIdx[i], &st, fmt.Sprintf("after step %d of the transaction (%s): values of [%s | %s | r | q | %s]\n  model:   %s\n  runtime: %s",
+					i, describe(st), strings.Join(names.os, ","), strings.Join(names.is, ","), strings.Join(names.ps, ","), want, res.Logs[i]), src)
+			}
+		}
+		wantErr := s.Op == "abort"
+		if (res.Err != nil) != wantErr {
+			var st *vStep
+			if len(res.Logs) < len(cur) {
+				st = &cur[len(res.Logs)]
+			}
+			return mk("outcome", si, st, fmt.Sprintf("transaction outcome: model predicts failure=%v, runtime returned %v after %d observations", wantErr, res.Err, len(res.Logs)), src)
+		}
+		if wantErr && res.Class != "user:PanicError" {
+			return mk("errkind", si, &s, "model predicts the explicit abort, runtime failed with "+res.Class+": "+res.Err.Error(), src)
+		}
+		if len(res.Logs) != nobs {
+			return mk("obs-count", si, &s, fmt.Sprintf("model predicts %d observations, runtime logged %d", nobs, len(res.Logs)), src)
+		}
+		// stored values after the transaction, re-read from the ledger
+		pr := w.Script(c05Projection(names), useVM)
+		if pr.Err != nil {
+			if host.IsInternal(pr.Class) {
+				return mk("internal", si, &s, "projection: "+pr.Class+": "+pr.Err.Error(), src)
+			}
+			if isCheckerError(pr.Err) {
+				return harness(mk("render", si, &s, pr.Err.Error(), c05Projection(names)))
+			}
+			return mk("projection", si, &s, "reading the stored values failed: "+pr.Err.Error(), src)
+		}
+		arr, ok := pr.Value.(cadence.Array)
+		if !ok || len(arr.Values) != len(names.ps) {
+			return harness(mk("projection-shape", si, &s, "unexpected projection result", ""))
+		}
+		for i, p := range names.ps {
+			want := "-"
+			if len(s.Obs.St[p]) > 0 {
+				want = showOuter(s.Obs.St[p][0])
+			}
+			got := string(arr.Values[i].(cadence.String))
+			if got != want {
+				return mk("state", si, &s, fmt.Sprintf("stored value at /storage/%s after the transaction (%s): model=%s runtime=%s", p, s.Op, want, got), src)
+			}
+		}
+	}
+	return nil
+}
+
+func describe(s vStep) string {
+	b, _ := json.Marshal(map[string]any{"op": s.Op, "v": s.V, "src": s.Src, "root": s.Root, "sel": s.Sel, "k": s.K, "path": s.Path, "key": s.Key})
+	return string(b)
+}
+
+func mainC05(in, outPath string) {
+	var behs []*vBeh
+	err := util.ReadLines(in, func(line []byte) error {
+		var b vBeh
+		if err := json.Unmarshal(line, &b); err != nil {
+			return err
+		}
+		behs = append(behs, &b)
+		return nil
+	})
+	if err != nil {
+		util.Die("reading behaviours: %v", err)
+	}
+	engines := envList("VALS_ENGINES", []string{"interp", "vm"})
+	refs := envList("VALS_REFS", []string{"int", "str"})
+	out := util.NewOut(outPath)
+	defer out.Close()
+	type job struct {
+		b        *vBeh
+		ref, eng string
+	}
+	var jobs []job
+	for _, b := range behs {
+		for _, r := range refs {
+			for _, e := range engines {
+				jobs = append(jobs, job{b, r, e})
+			}
+		}
+	}
+	var nfail, ntx, nsteps int64
+	util.Parallel(len(jobs), workers(), func(i int) {
+		j := jobs[i]
+		if f := c05Replay(j.b, j.ref, j.eng); f != nil {
+			atomic.AddInt64(&nfail, 1)
+			out.Write(f)
+		}
+		for _, s := range j.b.Steps {
+			if s.Op == "begin" {
+				atomic.AddInt64(&ntx, 1)
+			}
+		}
+		atomic.AddInt64(&nsteps, int64(len(j.b.Steps)))
+	})
+	out.Write(map[string]any{"summary": true, "behaviours": len(behs), "replays": len(jobs), "engines": len(engines), "refinements": len(refs),
+		"transactions": ntx, "steps": nsteps, "failures": nfail})
+	_ = strconv.Itoa
+}
